@@ -90,7 +90,7 @@ def run(tier, seed_):
     jobs = common.NCPU
     recs = []
     with ProcessPoolExecutor(max_workers=jobs) as ex:
-        for part in ex.map(_worker, [(shapes[i::jobs], i * 100000, seed_) for i in range(jobs) if shapes[i::jobs]]):
+        for part in ex.map(_worker, [(shapes[i::jobs], i * 100003, seed_) for i in range(jobs) if shapes[i::jobs]]):
             recs += part
     log(f"[C15] {sum(len(r['obs']) for r in recs)} parameter settings on {len(recs)} hypergraphs without repeated edges ({t():.0f}s)")
 
